@@ -1,3 +1,768 @@
-"""rules over the chunk writer / reader pair"""
+"""Rules over the chunk writer / reader pair sharing one mutex-protected object.
+
+Roles by type: the *shared* struct has an `Option<Waker>` field and a *state* enum
+field; the state enum's live variant carries the queue (VecDeque<Vec<u8>>), the
+queued-bytes counter (usize) and the producer-finished flag (bool); one variant
+carries the abort error, one is field-less (consumer finished).  The *reader*
+implements Stream, the *writer* io::Write and Drop."""
+from ..px import const, is_const, is_agg, agg, agg_get, mk_binop, TY, fmt_term
+from .. import px as P
+from .. import facts as F
+from .. import census as CEN
+from ..models import len_term, some, NONE
+from ..zone import Zone
+from .common import (where, short, final_read, impl_fn, inherent_fn, poll_shape, cons_zone, aggregates, calls_named, method_name)
+
+
+def roles(ctx):
+    if hasattr(ctx, "_chroles"):
+        return ctx._chroles
+    from ..check import FailClosed
+    shared = [a for a in ctx.facts.adts.values() if a["local"] and a["kind"] == "struct" and
+              any("Option<std::task::Waker>" in f["ty"] for f in a["variants"][0]["fields"])]
+    if len(shared) != 1:
+        raise FailClosed("shared struct (with an Option<Waker> field) not found uniquely")
+    sh = shared[0]
+    R = {"shared": sh["path"]}
+    for f in sh["variants"][0]["fields"]:
+        if "Waker" in f["ty"]:
+            R["waker_f"] = f["name"]
+        else:
+            R["state_f"] = f["name"]
+            R["state_ty"] = f["ty"].split("<")[0]
+    st = ctx.facts.adts.get(R["state_ty"])
+    if not st or st["kind"] != "enum":
+        raise FailClosed("shared state enum not found")
+    for v in st["variants"]:
+        tys = [f["ty"] for f in v["fields"]]
+        if any("VecDeque" in t for t in tys):
+            R["live"] = v["name"]
+            for f in v["fields"]:
+                if "VecDeque" in f["ty"]:
+                    R["queue_f"] = f["name"]
+                elif f["ty"] == "usize":
+                    R["bytes_f"] = f["name"]
+                elif f["ty"] == "bool":
+                    R["dropped_f"] = f["name"]
+        elif len(v["fields"]) == 1:
+            R["err"] = v["name"]
+        elif not v["fields"]:
+            R["fused"] = v["name"]
+    need = {"live", "err", "fused", "queue_f", "bytes_f", "dropped_f", "waker_f", "state_f"}
+    if not need <= set(R):
+        raise FailClosed("shared state roles incomplete: %r" % sorted(R))
+    # reader / writer structs: hold Arc<Mutex<shared>>
+    for a in ctx.facts.adts.values():
+        if not a["local"] or a["kind"] != "struct":
+            continue
+        fs = a["variants"][0]["fields"]
+        if any("Mutex<" + R["shared"] in f["ty"] for f in fs):
+            sf = [f["name"] for f in fs if "Mutex<" in f["ty"]][0]
+            if any(f["ty"] == "std::vec::Vec<u8>" for f in fs):
+                R["writer"] = a["path"]
+                R["w_shared_f"] = sf
+                R["buf_f"] = [f["name"] for f in fs if f["ty"] == "std::vec::Vec<u8>"][0]
+                R["cap_f"] = [f["name"] for f in fs if f["ty"] == "usize"][0]
+            else:
+                R["reader"] = a["path"]
+                R["r_shared_f"] = sf
+    if "writer" not in R or "reader" not in R:
+        raise FailClosed("reader/writer structs not found")
+    R["poll_next"] = _one(impl_fn(ctx, "futures_core::Stream", R["reader"], "poll_next"), "Reader::poll_next")
+    R["write"] = _one(impl_fn(ctx, "std::io::Write", R["writer"], "write"), "Writer::write")
+    R["flush"] = _one(impl_fn(ctx, "std::io::Write", R["writer"], "flush"), "Writer::flush")
+    R["wdrop"] = _one(impl_fn(ctx, "std::ops::Drop", R["writer"], "drop"), "Writer::drop")
+    R["rdrop"] = impl_fn(ctx, "std::ops::Drop", R["reader"], "drop")
+    R["size_hint"] = _one(inherent_fn(ctx, R["reader"], "size_hint"), "Reader::size_hint")
+    R["is_end_stream"] = _one(inherent_fn(ctx, R["reader"], "is_end_stream"), "Reader::is_end_stream")
+    R["abort"] = _one(inherent_fn(ctx, R["writer"], "abort"), "Writer::abort")
+    ctx._chroles = R
+    return R
+
+
+def _one(lst, what):
+    from ..check import FailClosed
+    if len(lst) != 1:
+        raise FailClosed("%s not found uniquely (%d)" % (what, len(lst)))
+    return lst[0]
+
+
+def lock_events(o):
+    return [e for e in o.events if e["k"] == "call" and e["callee"].get("path") == "std::sync::Mutex::<T>::lock"]
+
+
+def shared_root(o, which=0):
+    ls = lock_events(o)
+    if len(ls) <= which:
+        return None
+    g = ("payload", ls[which]["result"], "Ok", "0")
+    return ("H", ("pointee", g))
+
+
+def entry_state(R, root):
+    return ("field", ("deref", root[1]), R["state_f"])
+
+
+def live_field(R, st, f):
+    return ("payload", st, R["live"], f)
+
+
+def final_state(ctx, R, o, root):
+    return final_read(ctx, o, root, (("f", R["state_f"]),))
+
+
+def variant_at_end(o, v):
+    if is_agg(v):
+        return v[3]
+    if isinstance(v, tuple) and v[0] == "upd" and v[2][0] == "as":
+        return v[2][1]   # a field of that variant was written through a downcast
+    return o.cons.variant_of(v)
+
+
+# ------------------------------------------------------------------ reader
+
+def reader_rows(ctx):
+    R = roles(ctx)
+    outs = ctx.px(R["poll_next"], inline=lambda c, d: True, key="all")
+    rows = []
+    for o in outs:
+        if o.kind == "diverge":
+            rows.append({"o": o, "kind": "diverge"})
+            continue
+        if o.kind != "return":
+            rows.append({"o": o, "kind": o.kind})
+            continue
+        root = shared_root(o)
+        if root is None:
+            rows.append({"o": o, "kind": "unrecognised", "why": "no lock"})
+            continue
+        st0 = entry_state(R, root)
+        v0 = o.cons.variant_of(st0)
+        pops = [e for e in o.events if e["k"] == "call" and method_name(e["callee"]) == "pop_front"]
+        popv = o.cons.variant_of(pops[0]["result"]) if pops else None
+        dropped = o.cons.known.get(live_field(R, st0, R["dropped_f"]))
+        out, payload = poll_shape(o.value)
+        fs = final_state(ctx, R, o, root)
+        fw = final_read(ctx, o, root, (("f", R["waker_f"]),))
+        rows.append({"o": o, "kind": "return", "entry": v0, "pop": popv, "dropped": dropped, "out": out, "payload": payload,
+                     "final_state": fs, "final_variant": variant_at_end(o, fs) if not (isinstance(fs, tuple) and fs == st0) else v0,
+                     "final_waker": fw, "root": root, "st0": st0, "pops": pops, "nlocks": len(lock_events(o))})
+    return R, rows
+
+
 def reader_terminal(ctx, rule):
-    pass
+    R, rows = reader_rows(ctx)
+    # absorbing variants: entry variants all of whose rows return Ready(None)
+    by_entry = {}
+    for r in rows:
+        if r["kind"] == "return":
+            by_entry.setdefault(r["entry"], set()).add(r["out"])
+    absorbing = {v for v, outs in by_entry.items() if outs == {"None"}}
+    if not absorbing:
+        ctx.violation(rule, rule + "|no-absorbing", "no shared-state variant makes the reader return Ready(None) unconditionally")
+    n = 0
+    for r in rows:
+        if r["kind"] != "return" or r["out"] not in ("None", "Err"):
+            continue
+        n += 1
+        fv = r["final_variant"]
+        inst = "entry %s -> %s" % (r["entry"], r["out"])
+        if fv in absorbing:
+            ctx.ok(rule, "%s leaves the shared state %s (absorbing)" % (inst, fv))
+        else:
+            ctx.violation(rule, "%s|%s" % (rule, inst), "after returning %s the shared state is %s, from which a later poll is not guaranteed to return Ready(None)" % (r["out"], fv),
+                          where=_w(r["o"]))
+    ctx.floor(rule, n, 3, what="terminal rows of the chunk reader")
+
+
+def _w(o):
+    for e in reversed(o.events):
+        if "span" in e:
+            return F.loc(e["span"])
+    return None
+
+
+def reader_pending(ctx, rule1, rule3):
+    """C10.R1 / C10.R3"""
+    R, rows = reader_rows(ctx)
+    npend = 0
+    for r in rows:
+        if r["kind"] == "diverge":
+            continue
+        if r["kind"] != "return":
+            ctx.violation(rule3, rule3 + "|path", "UNRECOGNISED reader path (%s)" % r["kind"])
+            continue
+        live_empty_running = r["entry"] == R["live"] and r["pop"] == "None" and r["dropped"] == 0
+        if r["out"] == "Pending":
+            npend += 1
+            if not live_empty_running:
+                ctx.violation(rule3, "%s|pending|%s,%s,%s" % (rule3, r["entry"], r["pop"], r["dropped"]),
+                              "the reader parks (Pending) on a row that is not (live, queue empty, producer running): entry %s, pop %s, producer finished %s" %
+                              (r["entry"], r["pop"], r["dropped"]), where=_w(r["o"]))
+            # R1: same guard, waker current, state restored
+            bad = []
+            if r["nlocks"] != 1:
+                bad.append("%d lock acquisitions between observing the queue and parking" % r["nlocks"])
+            fs = r["final_state"]
+            if not (is_agg(fs) and fs[3] == R["live"]):
+                bad.append("the shared state is left as %s instead of being restored to the live variant" % short(fs, 40))
+            else:
+                if agg_get(fs, R["dropped_f"]) != live_field(R, r["st0"], R["dropped_f"]) and agg_get(fs, R["dropped_f"]) != const(0):
+                    bad.append("producer-finished flag not restored")
+                if agg_get(fs, R["bytes_f"]) not in (live_field(R, r["st0"], R["bytes_f"]), const(0)):
+                    bad.append("queued-bytes counter not restored")
+            fw = r["final_waker"]
+            cur = current_waker_term(r["o"])
+            okw = False
+            cptrs, cvals = current_wakers(r["o"])
+            if is_agg(fw) and fw[3] == "Some" and agg_get(fw, "0") in cvals:
+                okw = True   # Some(cx.waker().clone())
+            else:
+                w0 = ("field", ("deref", r["root"][1]), R["waker_f"])
+                for t, v in r["o"].cons.known.items():
+                    if isinstance(t, tuple) and t[0] == "call" and t[1].endswith("Waker::will_wake") and v == 1:
+                        okw = True   # stored waker already wakes the current task
+                cur_ptr = cur[1] if cur is not None else None
+                for e in r["o"].events:
+                    if e["k"] == "call" and e["callee"].get("path") == "std::clone::Clone::clone_from" and cur_ptr is not None:
+                        src = e["args"][1]
+                        dst = e["args"][0]
+                        into_stored = dst[0] == "ref" and dst[1] == r["root"] and dst[2][:1] == (("f", R["waker_f"]),)
+                        if into_stored and (src in cptrs or (src[0] == "ref" and (e["snap"][1] in cvals or (src[1][0] == "H" and src[1][1] in cptrs)))):
+                            okw = True   # stored.clone_from(cx.waker())
+            if not okw:
+                bad.append("the stored waker is not the current task's waker when parking (final %s)" % short(fw, 60))
+            if bad:
+                ctx.violation(rule1, "%s|%s" % (rule1, bad[0][:40]), "Pending path: " + "; ".join(bad), where=_w(r["o"]))
+            else:
+                ctx.ok(rule1, "Pending path registers the current waker under the same lock and restores the state")
+        elif live_empty_running:
+            ctx.violation(rule3, "%s|no-park|%s" % (rule3, r["out"]), "on (live, empty queue, producer running) the reader returns %s instead of parking" % r["out"], where=_w(r["o"]))
+    ctx.floor(rule1, npend, 2, what="Pending rows")
+    ctx.ok(rule3, "Pending only on (live, empty, producer running); every other row returns Ready", detail={"pending_rows": npend})
+
+
+def current_wakers(o):
+    """all terms denoting the polling task's waker on this path (each `cx.waker()` call)"""
+    ptrs = [e["result"] for e in o.events if e["k"] == "call" and e["callee"].get("path") == "std::task::Context::<'a>::waker"]
+    return ptrs, [("deref", p) for p in ptrs]
+
+
+def current_waker_term(o):
+    for e in o.events:
+        if e["k"] == "call" and e["callee"].get("path") == "std::task::Context::<'a>::waker":
+            return ("deref", e["result"])
+    return None
+
+
+def reader_consume(ctx, rule):
+    """C08.R4: pop_front; bytes -= len(c); yield D::from(c)"""
+    R, rows = reader_rows(ctx)
+    n = 0
+    for r in rows:
+        if r["kind"] != "return" or r["out"] != "Ok":
+            continue
+        n += 1
+        bad = []
+        if len(r["pops"]) != 1 or r["pop"] != "Some":
+            bad.append("data is yielded without exactly one successful pop_front")
+        else:
+            c = ("payload", r["pops"][0]["result"], "Some", "0")
+            p = r["payload"]
+            if not (isinstance(p, tuple) and p[0] == "call" and p[1].endswith("From::from") and p[2][0] == c):
+                bad.append("the frame is %s, not D::from(<popped chunk>)" % short(p, 80))
+            fs = r["final_state"]
+            if is_agg(fs) and fs[3] == R["live"]:
+                b2 = agg_get(fs, R["bytes_f"])
+                want = mk_binop("Sub", live_field(R, r["st0"], R["bytes_f"]), len_term(c))
+                if b2 != want:
+                    bad.append("queued-bytes counter becomes %s, expected bytes - len(chunk)" % short(b2, 80))
+            elif variant_at_end(r["o"], fs) != R["fused"]:
+                bad.append("state after the last chunk is %s" % short(fs, 40))
+        if bad:
+            ctx.violation(rule, "%s|%s" % (rule, bad[0][:40]), "consume path: " + "; ".join(bad), where=_w(r["o"]))
+        else:
+            ctx.ok(rule, "consume row: pop_front, counter -= len(chunk), frame = from(chunk) (dropped=%s)" % r["dropped"])
+    ctx.floor(rule, n, 2, what="data rows of the reader")
+
+
+# ------------------------------------------------------------------ tables: is_end_stream / size_hint
+
+def end_stream_table(ctx, rule):
+    R = roles(ctx)
+    outs = [o for o in ctx.px(R["is_end_stream"], inline=lambda c, d: True, key="all") if o.kind == "return"]
+    seen = set()
+    for o in outs:
+        root = shared_root(o)
+        st0 = entry_state(R, root)
+        v0 = o.cons.variant_of(st0)
+        val = o.value
+        b = live_field(R, st0, R["bytes_f"])
+        d = live_field(R, st0, R["dropped_f"])
+        z = cons_zone(o, terms=(b,))
+        may_true = not (is_const(val) and val[1] == 0)
+        seen.add(v0)
+        if v0 == R["err"]:
+            if may_true:
+                ctx.violation(rule, rule + "|err-true", "is_end_stream can answer true while an abort error is pending (%s)" % short(val, 40))
+            else:
+                ctx.ok(rule, "error pending -> false")
+        elif v0 == R["fused"]:
+            ctx.ok(rule, "consumer finished -> %s" % short(val, 20))
+        elif v0 == R["live"]:
+            if may_true:
+                # the value may be true only if bytes == 0 and dropped
+                okk = False
+                if is_const(val) and val[1] == 1:
+                    okk = z.entails("Eq", b, const(0)) and o.cons.known.get(d) == 1
+                elif val == d or (isinstance(val, tuple) and val == ("field",) + d[1:]):
+                    okk = z.entails("Eq", b, const(0))
+                elif o.cons.known.get(d) == 1 and isinstance(val, tuple) and val[0] == "binop" and val[1] == "Eq" and val[2] == b and val[3] == const(0):
+                    okk = True
+                if not okk:
+                    ctx.violation(rule, rule + "|live-true", "is_end_stream may answer true on a live state without (queued bytes == 0 and producer finished): %s" % short(val, 80))
+                else:
+                    ctx.ok(rule, "live -> true only if nothing queued and producer finished")
+            else:
+                ctx.ok(rule, "live row -> false")
+        else:
+            ctx.violation(rule, rule + "|variant", "UNRECOGNISED state variant %s in is_end_stream" % v0)
+    ctx.floor(rule, len(seen), 3, what="state variants covered by is_end_stream")
+
+
+def size_hint_table(ctx, rule):
+    R = roles(ctx)
+    outs = [o for o in ctx.px(R["size_hint"], inline=lambda c, d: True, key="all") if o.kind == "return"]
+    n = 0
+    for o in outs:
+        root = shared_root(o)
+        st0 = entry_state(R, root)
+        v0 = o.cons.variant_of(st0)
+        b = live_field(R, st0, R["bytes_f"])
+        d = live_field(R, st0, R["dropped_f"])
+        lows = [e for e in o.events if e["k"] == "call" and e["callee"].get("path") == "http_body::SizeHint::set_lower"]
+        ups = [e for e in o.events if e["k"] == "call" and e["callee"].get("path") == "http_body::SizeHint::set_upper"]
+        exact = [e for e in o.events if e["k"] == "call" and e["callee"].get("path") in ("http_body::SizeHint::with_exact", "http_body::SizeHint::set_exact")]
+        n += 1
+        if v0 != R["live"]:
+            if lows or ups or exact:
+                ctx.violation(rule, rule + "|nonlive", "size_hint sets bounds on a non-live state (%s): nothing more will be delivered" % v0)
+            else:
+                ctx.ok(rule, "%s -> default hint (lower 0, no upper)" % v0)
+            continue
+        bad = []
+        for e in lows + exact:
+            if e["args"][-1] != b:
+                bad.append("lower bound %s is not the queued-bytes counter" % short(e["args"][-1], 50))
+        for e in ups + exact:
+            if e["args"][-1] != b:
+                bad.append("upper bound %s is not the queued-bytes counter" % short(e["args"][-1], 50))
+            if o.cons.known.get(d) != 1:
+                bad.append("an upper bound is given while the producer may still write")
+        if bad:
+            ctx.violation(rule, "%s|%s" % (rule, bad[0][:40]), "size_hint (live): " + "; ".join(bad))
+        else:
+            ctx.ok(rule, "live (producer finished=%s): lower = queued bytes%s" % (o.cons.known.get(d), ", upper = queued bytes" if ups or exact else ", no upper"))
+    ctx.floor(rule, n, 3, what="size_hint rows")
+
+
+# ------------------------------------------------------------------ writer: flush / drop / abort
+
+def flush_rows(ctx, dropping):
+    """rows of the flush helper reached through flush() (dropping False) or Drop (True)"""
+    R = roles(ctx)
+    entry = R["wdrop"] if dropping else R["flush"]
+    outs = ctx.px(entry, inline=lambda c, d: True, key="all")
+    return R, outs
+
+
+def writer_self_root(o):
+    return ("H", ("param", 1))
+
+
+def publish_info(ctx, R, o):
+    """what this path published under the lock"""
+    root = shared_root(o)
+    info = {"root": root, "pushed": [], "state_err": False, "dropped_set": None, "took_waker": None, "woke": []}
+    if root is None:
+        return info
+    for e in o.events:
+        if e["k"] == "call" and method_name(e["callee"]) == "push_back":
+            info["pushed"].append(e)
+        if e["k"] == "call" and e["callee"].get("path") == "std::option::Option::<T>::take":
+            a = e["args"][0]
+            if a[0] == "ref" and a[1] == root and a[2] == (("f", R["waker_f"]),):
+                info["took_waker"] = e
+        if e["k"] == "call" and e["callee"].get("path") in ("std::task::Waker::wake", "std::task::Waker::wake_by_ref"):
+            info["woke"].append(e)
+    fs = final_state(ctx, R, o, root)
+    info["final_state"] = fs
+    st0 = entry_state(R, root)
+    info["st0"] = st0
+    info["entry"] = o.cons.variant_of(st0)
+    fv = variant_at_end(o, fs) if fs != st0 else info["entry"]
+    info["final_variant"] = fv
+    if info["entry"] == R["live"] and fv == R["err"]:
+        info["state_err"] = True
+    if info["entry"] == R["live"] and fv == R["live"]:
+        d2 = final_read(ctx, o, root, (("f", R["state_f"]), ("as", R["live"]), ("f", R["dropped_f"])))
+        info["dropped_after"] = d2
+    return info
+
+
+def wake_discipline(ctx, rule, fn_outs):
+    """C10.R2: publish => take the waker under the same guard => wake it on the Some edge"""
+    R = roles(ctx)
+    n = 0
+    for label, outs in fn_outs:
+        for o in outs:
+            if o.kind != "return":
+                continue
+            pi = publish_info(ctx, R, o)
+            if pi["root"] is None:
+                continue
+            published = bool(pi["pushed"]) or pi["state_err"] or (pi.get("dropped_after") is not None and pi["dropped_after"] != live_field(R, pi["st0"], R["dropped_f"]))
+            if not published:
+                continue
+            n += 1
+            bad = []
+            tw = pi["took_waker"]
+            if tw is None:
+                bad.append("publishes (%s) without taking the parked waker under the same lock" %
+                           ("chunk" if pi["pushed"] else ("error" if pi["state_err"] else "producer-finished flag")))
+            else:
+                taken = tw["result"]
+                tv = o.cons.variant_of(taken)
+                if tv == "Some":
+                    w = ("payload", taken, "Some", "0")
+                    if not any(e["args"][0] == w or (e["args"][0][0] == "ref" and e["snap"][0] == w) for e in pi["woke"]):
+                        bad.append("takes a parked waker but never wakes it")
+                elif tv is None:
+                    bad.append("the taken waker is not inspected")
+            if bad:
+                ctx.violation(rule, "%s|%s|%s" % (rule, label, bad[0][:30]), "%s: %s" % (label, "; ".join(bad)), where=_w(o))
+            else:
+                ctx.ok(rule, "%s: publish -> take waker under the lock -> wake (waker %s)" % (label, o.cons.variant_of(pi["took_waker"]["result"])))
+    ctx.floor(rule, n, 6, what="publishing rows (flush, drop, abort)")
+
+
+def publish_rules(ctx, r3, r6, r7):
+    """C08.R3 / R6 / R7 on the flush helper"""
+    R = roles(ctx)
+    n = 0
+    for dropping in (False, True):
+        _, outs = flush_rows(ctx, dropping)
+        label = "drop" if dropping else "flush"
+        for o in outs:
+            if o.kind != "return":
+                continue
+            pi = publish_info(ctx, R, o)
+            bufroot = writer_self_root(o)
+            buf0 = ("field", ("deref", ("param", 1)), R["buf_f"])
+            empty = None
+            for t, v in o.cons.known.items():
+                if isinstance(t, tuple) and t[0] == "binop" and t[1] == "Eq" and t[2] == ("len", buf0) and t[3] == const(0):
+                    empty = bool(v)
+            z = cons_zone(o, terms=(("len", buf0),))
+            if empty is None:
+                if z.entails("Eq", ("len", buf0), const(0)):
+                    empty = True
+                elif z.entails("Lt", const(0), ("len", buf0)):
+                    empty = False
+            ok_ret = (is_agg(o.value) and o.value[3] == "Ok") or o.value == ("zst", "()") or (dropping and True)
+            for e in pi["pushed"]:
+                n += 1
+                # R6: never an empty chunk
+                if empty is not False:
+                    ctx.violation(r6, "%s|%s" % (r6, label), "%s: a chunk is queued on a path where the buffer may be empty (empty frame)" % label, where=where(e))
+                # R3: the pushed value is the taken buffer, counter += its length
+                v = e["args"][1]
+                if v != buf0:
+                    ctx.violation(r3, "%s|%s|value" % (r3, label), "%s: the queued chunk is %s, not the writer's buffer" % (label, short(v, 60)), where=where(e))
+                else:
+                    b2 = final_read(ctx, o, pi["root"], (("f", R["state_f"]), ("as", R["live"]), ("f", R["bytes_f"])))
+                    want = mk_binop("Add", live_field(R, pi["st0"], R["bytes_f"]), len_term(buf0))
+                    if b2 != want:
+                        ctx.violation(r3, "%s|%s|counter" % (r3, label), "%s: queued-bytes counter becomes %s, expected bytes + len(chunk)" % (label, short(b2, 80)), where=where(e))
+                    else:
+                        nb = final_read(ctx, o, bufroot, (("f", R["buf_f"]),))
+                        if not (isinstance(nb, tuple) and nb[0] == "default"):
+                            ctx.violation(r3, "%s|%s|buf-kept" % (r3, label), "%s: the buffer is queued but not taken out of the writer (it would be sent twice)" % label, where=where(e))
+                        else:
+                            ctx.ok(r3, "%s: chunk = taken buffer, counter += len(chunk), under the lock" % label)
+            if not dropping and is_agg(o.value) and o.value[3] == "Ok" and empty is False and not pi["pushed"]:
+                ctx.violation(r3, "%s|%s|ok-without-publish" % (r3, label), "flush returns Ok with a non-empty buffer that was not handed to the consumer", where=_w(o))
+            # R7: producer-finished flag := dropping
+            if pi.get("dropped_after") is not None and pi["entry"] == R["live"] and pi["final_variant"] == R["live"] and pi["took_waker"] is not None:
+                want = const(1 if dropping else 0)
+                if pi["dropped_after"] != want:
+                    ctx.violation(r7, "%s|%s" % (r7, label), "%s: the producer-finished flag becomes %s, expected %s" % (label, short(pi["dropped_after"], 40), want[1]), where=_w(o))
+                else:
+                    ctx.ok(r7, "%s: producer-finished flag := %s" % (label, want[1]))
+    ctx.floor(r3, n, 2, what="chunk-publishing rows (flush and drop)")
+
+
+def abort_rows(ctx, rule):
+    """C11.R2: abort on a live state stores the error (and wakes, C10.R2); otherwise the state stays non-live"""
+    R = roles(ctx)
+    outs = [o for o in ctx.px(R["abort"], inline=lambda c, d: True, key="all") if o.kind == "return"]
+    n = 0
+    for o in outs:
+        pi = publish_info(ctx, R, o)
+        n += 1
+        if pi["entry"] == R["live"]:
+            fs = pi["final_state"]
+            if not (is_agg(fs) and fs[3] == R["err"] and agg_get(fs, "0") == ("param", 2)):
+                ctx.violation(rule, rule + "|live", "abort on a live state leaves %s, not the error variant holding the given error" % short(fs, 60), where=_w(o))
+            else:
+                ctx.ok(rule, "abort: live -> error variant holding the caller's error")
+        else:
+            if pi["final_variant"] == R["live"]:
+                ctx.violation(rule, rule + "|resurrect", "abort turns a non-live state back into a live one")
+            else:
+                ctx.ok(rule, "abort: %s stays non-live" % pi["entry"])
+    ctx.floor(rule, n, 2, what="abort rows")
+    return outs
+
+
+def lock_discipline(ctx, rule):
+    """C10.R4: one mutex, no nested acquisition, five lock sites"""
+    R = roles(ctx)
+    sites = calls_named(ctx.facts, "std::sync::Mutex::<T>::lock")
+    ctx.floor(rule, len(sites), 5, what="lock sites on the shared mutex")
+    fns = sorted({b["name"] for b, i, t in sites})
+    for fn in fns:
+        for entry in [fn]:
+            outs = ctx.px(entry, inline=lambda c, d: True, key="all")
+            nested = False
+            for o in outs:
+                live = 0
+                for e in o.events:
+                    if e["k"] == "call" and e["callee"].get("path") == "std::sync::Mutex::<T>::lock":
+                        if live:
+                            nested = True
+                        live += 1
+                    if e["k"] == "drop" and "MutexGuard" in e.get("ty", ""):
+                        live = max(0, live - 1)
+                    if e["k"] == "call" and e["callee"].get("path") == "std::mem::drop" and "MutexGuard" in (e["argops"][0].get("place", {}).get("ty", {}).get("s") or ""):
+                        live = max(0, live - 1)
+            if nested:
+                ctx.violation(rule, "%s|nested|%s" % (rule, fn), "%s acquires the shared mutex while already holding it" % fn)
+            else:
+                ctx.ok(rule, "%s: no nested acquisition" % fn)
+
+
+def consumer_drop(ctx, rule):
+    """C11.R5: the consumer half has a Drop whose every path leaves the shared state non-live (and so releases the queue)"""
+    R = roles(ctx)
+    if not R["rdrop"]:
+        ctx.violation(rule, rule + "|no-drop", "the consumer half (%s) has no Drop impl: nothing marks the shared state when the body is dropped, "
+                      "so the writer keeps queueing for a consumer that no longer exists" % R["reader"])
+        return
+    outs = [o for o in ctx.px(R["rdrop"][0], inline=lambda c, d: True, key="all") if o.kind == "return"]
+    n = 0
+    for o in outs:
+        root = shared_root(o)
+        if root is None:
+            ctx.violation(rule, rule + "|no-lock", "the consumer's Drop has a path that does not touch the shared state")
+            continue
+        n += 1
+        fs = final_state(ctx, R, o, root)
+        st0 = entry_state(R, root)
+        fv = variant_at_end(o, fs) if fs != st0 else o.cons.variant_of(st0)
+        if fv == R["live"] or fv is None:
+            ctx.violation(rule, rule + "|stays-live", "a path of the consumer's Drop leaves the shared state %s" % ("live" if fv else "undetermined"), where=_w(o))
+        else:
+            ctx.ok(rule, "consumer Drop leaves the state %s (queue released with the old state)" % fv)
+    ctx.floor(rule, n, 1, what="paths of the consumer's Drop")
+
+
+def flush_reports_gone_consumer(ctx, rule):
+    """C11.R6: flush (not drop) returns Ok only after observing under the lock that the state is live"""
+    R = roles(ctx)
+    _, outs = flush_rows(ctx, False)
+    n = 0
+    for o in outs:
+        if o.kind != "return":
+            continue
+        v = o.value
+        okret = (is_agg(v) and v[3] == "Ok")
+        if not okret:
+            continue
+        n += 1
+        root = shared_root(o)
+        if root is None:
+            ctx.violation(rule, rule + "|ok-without-lock", "flush returns Ok on a path that never looks at the shared state: a dropped consumer goes unnoticed", where=_w(o))
+            continue
+        st0 = entry_state(R, root)
+        if o.cons.variant_of(st0) != R["live"]:
+            ctx.violation(rule, rule + "|ok-on-nonlive", "flush returns Ok although the shared state is %s (consumer gone or aborted)" % o.cons.variant_of(st0), where=_w(o))
+        else:
+            ctx.ok(rule, "flush Ok path observed a live consumer under the lock")
+    ctx.floor(rule, n, 1, what="Ok rows of flush")
+
+
+def queue_api(ctx, rule):
+    """C08.R5 / C11.R7: FIFO closure of the methods called on the queue"""
+    allowed = {"push_back", "pop_front", "is_empty", "len", "new", "default", "drop", "take", "with_capacity"}
+    n = 0
+    for b, i, t in ctx.facts.all_calls():
+        full = (t["callee"].get("res_full") or t["callee"].get("full") or "")
+        if "VecDeque<" not in full.split(" as ")[0] and "VecDeque::<" not in full:
+            continue
+        n += 1
+        m = method_name(t["callee"])
+        if m not in allowed:
+            ctx.violation(rule, "%s|%s|%s" % (rule, b["name"], m), "`%s` on the chunk queue can reorder, duplicate or drop single chunks" % m, where=F.loc(t["span"]))
+    ctx.ok(rule, "queue methods are limited to push_back / pop_front / is_empty / whole-queue take", detail={"call_sites": n})
+    ctx.floor(rule, n, 3, what="method calls on the chunk queue")
+
+
+# ------------------------------------------------------------------ writer: write()
+
+def write_rules(ctx, r1, r2):
+    """C08.R1 (returned count == bytes appended <= len(input)) and C08.R2 (step invariant Inv_W)"""
+    R = roles(ctx)
+    BUF0 = ("sym", "buf")
+    CAPF = ("sym", "chunk_cap")
+    INP = ("deref", ("param", 2))
+    TY.setdefault(CAPF, (64, False))
+    cap_b = ("cap", BUF0)
+    len_b = ("len", BUF0)
+    TY.setdefault(cap_b, (64, False))
+    TY.setdefault(len_b, (64, False))
+    cases = [("capacity=0", [("Eq", cap_b, const(0)), ("Eq", len_b, const(0))]),
+             ("capacity>=chunk", [("Le", CAPF, cap_b), ("Lt", len_b, cap_b)])]
+    selfv = agg("adt", R["writer"], None, ((R["w_shared_f"], ("sym", "shared")), (R["buf_f"], BUF0), (R["cap_f"], CAPF), ("_marker", ("sym", "m"))))
+    nok = 0
+    for label, rels in cases:
+        def setup(st, px, rels=rels):
+            st.env[("H", ("param", 1))] = selfv
+            st.cons.rel.append(("Le", const(1), CAPF))
+            for r in rels:
+                st.cons.rel.append(r)
+        outs = ctx.px(R["write"], inline=lambda c, d: True, setup=setup, key="w")
+        sites = CEN.census(ctx, outs)
+        for key, s in sorted(sites.items()):
+            if s.failed and s.kind == "assert" and s.op == "Overflow(Add)" and "flush" in s.fn and all("ready" in f[1] or "state" in f[1] for f in s.failed):
+                ctx.ok(r2, "write (%s): %s -- queued-bytes counter: the sum of the lengths of distinct live Vec<u8> allocations cannot exceed the address space" % (label, key), nontrivial=False)
+            elif s.failed:
+                ctx.violation(r2, "%s|%s|%s" % (r2, label, key), "write (%s): %s (%s)" % (label, s.failed[0][0], s.failed[0][1][:100]), where=F.loc(s.span))
+            else:
+                ctx.ok(r2, "write (%s): %s" % (label, key), detail=sorted(s.how), where=F.loc(s.span))
+        for o in outs:
+            if o.kind != "return":
+                continue
+            z0 = cons_zone(o)
+            if not z0.feasible():
+                continue
+            v = o.value
+            var = v[3] if is_agg(v) else o.cons.variant_of(v)
+            if var != "Ok":
+                continue  # Err exits: the BodyWriter goes dead (C11.R4)
+            nok += 1
+            n = agg_get(v, "0") if is_agg(v) else ("payload", v, "Ok", "0")
+            # appended slice
+            ext = [e for e in o.events if e["k"] == "call" and method_name(e["callee"]) == "extend_from_slice"]
+            bad = []
+            if len(ext) != 1:
+                bad.append("%d appends to the chunk buffer" % len(ext))
+            else:
+                sl = ext[0]["args"][1]
+                from .etaglist import canon_slice
+                sv, _pth = canon_slice(sl)
+                ln = len_term(sv)
+                z = cons_zone(o, terms=(n, ln, len_term(INP)))
+                if not z.entails("Eq", n, ln):
+                    bad.append("returned count %s is not the length of the slice appended (%s)" % (short(n, 40), short(ln, 40)))
+                if not (isinstance(sv, tuple) and sv[0] == "slice" and sv[1] == INP and sv[2] == const(0)):
+                    bad.append("the appended slice is %s, not a prefix of the input" % short(sv, 60))
+                if not z.entails("Le", n, len_term(INP)):
+                    bad.append("returned count may exceed the input length")
+                # progress: non-empty input => n >= 1
+                zp = cons_zone(o, extra=[("Le", const(1), len_term(INP))], terms=(n,))
+                if zp.feasible() and not zp.entails("Le", const(1), n):
+                    bad.append("a non-empty input can be answered with Ok(0)")
+            if bad:
+                ctx.violation(r1, "%s|%s|%s" % (r1, label, bad[0][:40]), "write (%s): %s" % (label, "; ".join(bad)), where=_w(o))
+            else:
+                ctx.ok(r1, "write (%s): Ok(n), n = len(appended prefix) <= len(input), n >= 1 for non-empty input" % label)
+            # Inv_W at exit
+            nb = final_read(ctx, o, ("H", ("param", 1)), (("f", R["buf_f"]),))
+            c2, l2 = buf_cap_len(nb, BUF0)
+            zz = cons_zone(o, terms=(c2, l2, CAPF))
+            inv = (zz.entails("Eq", c2, const(0)) and zz.entails("Eq", l2, const(0))) or (zz.entails("Le", CAPF, c2) and zz.entails("Lt", l2, c2))
+            if not inv:
+                ctx.violation(r2, "%s|%s|inv" % (r2, label), "write (%s): after Ok the buffer invariant `(capacity=0 and len=0) or (capacity >= chunk size and len < capacity)` "
+                              "is not re-established (capacity %s, len %s): a later write can report Ok(0) or panic" % (label, short(c2, 40), short(l2, 40)), where=_w(o))
+            else:
+                ctx.ok(r2, "write (%s): buffer invariant re-established (a full chunk is always handed over before Ok)" % label)
+    ctx.floor(r1, nok, 3, what="Ok rows of write over both invariant cases")
+
+
+def buf_cap_len(v, base):
+    """(capacity term, length term) of a buffer value built from `base` by the modelled operations"""
+    from ..models import len_term as LT
+    if isinstance(v, tuple) and v[0] == "default":
+        return const(0), const(0)
+    return cap_term(v), vec_len(v)
+
+
+def vec_len(v):
+    if isinstance(v, tuple):
+        if v[0] == "default":
+            return const(0)
+        if v[0] == "appended":
+            piece = v[2]
+            pl = len_term(piece[1]) if piece[0] == "slice" else ("len", piece)
+            return mk_binop("Add", vec_len(v[1]), pl)
+        if v[0] == "reserved":
+            return vec_len(v[1])
+    t = ("len", v)
+    TY.setdefault(t, (64, False))
+    return t
+
+
+def cap_term(v):
+    if isinstance(v, tuple):
+        if v[0] == "default":
+            return const(0)
+        if v[0] == "appended":
+            return cap_term(v[1])   # valid when the append fits (checked by the caller through the zone)
+        if v[0] == "reserved":
+            t = ("cap", v)
+            TY.setdefault(t, (64, False))
+            return t
+    t = ("cap", v)
+    TY.setdefault(t, (64, False))
+    return t
+
+
+def ctor_cap_positive(ctx, rule):
+    """the only construction site of the writer asserts chunk size > 0"""
+    R = roles(ctx)
+    sites = aggregates(ctx.facts, R["writer"])
+    fns = sorted({b["name"] for b, i, st in sites})
+    n = 0
+    for fn in fns:
+        outs = ctx.px(fn)
+        for o in outs:
+            if o.kind != "return":
+                continue
+            n += 1
+            z = cons_zone(o)
+            capv = None
+            for b, i, st in sites:
+                pass
+            # the chunk-size argument is the usize parameter
+            body = ctx.facts.bodies[fn]
+            ps = [i for i in range(1, body["arg_count"] + 1) if body["locals"][i]["s"] == "usize"]
+            if len(ps) == 1:
+                p = ("param", ps[0])
+                TY.setdefault(p, (64, False))
+                zz = cons_zone(o, terms=(p,))
+                if zz.entails("Le", const(1), p):
+                    ctx.ok(rule, "%s: chunk size >= 1 on the constructing path" % fn)
+                else:
+                    ctx.violation(rule, "%s|%s" % (rule, fn), "%s can construct a writer with chunk size 0 (write would then accept 0 bytes forever)" % fn)
+    ctx.floor(rule, n, 1, what="writer construction paths")
